@@ -627,6 +627,10 @@ func runCancel(c *core.Ctx) {
 						if an.IsMethod(x, r.CachePath, "Cache", "Delete") {
 							return []bool{true}
 						}
+						// a further method of the upload type that does (sessionEnd → sessionDrop → Delete)
+						if sc := x.Call.StaticCallee(); sc != nil && sc != f && sc.Signature.Recv() != nil && an.NamedOf(an.Deref(sc.Signature.Recv().Type())) == fam.Upload && always(sc, d+1) {
+							return []bool{true}
+						}
 					case *ssa.Return:
 						n++
 						if !s {
@@ -699,6 +703,27 @@ func isSizeOf(r *Roles, v ssa.Value, sess ssa.Value) bool {
 	return call != nil && r.IsAPI(call, "BlobCreator", "Size") && an.Origin(call.Call.Value) == sess
 }
 
+// isExistingSession: the value is an upload session looked up by its id — the result of BlobSession, or of a
+// helper of the server package every non-nil result of which is one.
+func isExistingSession(c *core.Ctx, r *Roles, sess ssa.Value) bool {
+	if sc, _ := an.CallOf(sess); sc != nil && r.IsAPI(sc, "Repo", "BlobSession") {
+		return true
+	}
+	hr := an.HelperReturns(sess, func(h *ssa.Function) bool { return core.FuncPkgPath(h) == c.P.Module })
+	found := false
+	for _, x := range hr {
+		if an.IsNilConst(an.Strip(x.Val)) {
+			continue
+		}
+		sc, _ := an.CallOf(an.Origin(x.Val))
+		if sc == nil || !r.IsAPI(sc, "Repo", "BlobSession") {
+			return false
+		}
+		found = true
+	}
+	return found
+}
+
 func runRange(c *core.Ctx) {
 	r := requireRoles(c)
 	if r == nil {
@@ -706,15 +731,6 @@ func runRange(c *core.Ctx) {
 	}
 	checkers := map[*ssa.Function]bool{}
 	for _, fn := range serverFuncs(c) {
-		var sessCalls []ssa.CallInstruction
-		an.Calls(fn, func(call ssa.CallInstruction) {
-			if r.IsAPI(call, "Repo", "BlobSession") {
-				sessCalls = append(sessCalls, call)
-			}
-		})
-		if len(sessCalls) == 0 {
-			continue
-		}
 		n := 0
 		an.Calls(fn, func(call ssa.CallInstruction) {
 			if !isSessionWrite(r, call) {
@@ -727,7 +743,7 @@ func runRange(c *core.Ctx) {
 				dst = call.Common().Args[0]
 			}
 			sess := an.Origin(dst)
-			if sc, _ := an.CallOf(sess); sc == nil || !r.IsAPI(sc, "Repo", "BlobSession") {
+			if !isExistingSession(c, r, sess) {
 				return
 			}
 			n++
@@ -1111,6 +1127,53 @@ func runROGuard(c *core.Ctx) {
 					if mc, ok := call.Call.Value.(*ssa.MakeClosure); ok && mc.Fn == fn {
 						sites = append(sites, call)
 					}
+					// the handler is handed to a wrapper of the package (middleware): it runs where the wrapper calls
+					// the function it was given
+					if w := call.Call.StaticCallee(); w != nil && core.FuncPkgPath(w) == c.P.Module && len(w.Blocks) > 0 {
+						for i, a := range call.Call.Args {
+							mc, ok := an.Strip(a).(*ssa.MakeClosure)
+							if !ok || mc.Fn != fn || i >= len(w.Params) {
+								continue
+							}
+							param := w.Params[i]
+							found := false
+							clean := true
+							for _, wf := range an.WithAnon(w) {
+								an.Instrs(wf, func(in2 ssa.Instruction) {
+									ci, ok := in2.(ssa.CallInstruction)
+									if !ok {
+										return
+									}
+									isParam := func(v ssa.Value) bool {
+										o := an.Origin(v)
+										if fv, ok := o.(*ssa.FreeVar); ok {
+											if b := an.FreeVarBinding(fv); b != nil {
+												o = an.Origin(b)
+											}
+										}
+										return o == ssa.Value(param)
+									}
+									if isParam(ci.Common().Value) {
+										if _, isCall := ci.(*ssa.Call); isCall {
+											sites = append(sites, ci)
+											found = true
+										} else {
+											clean = false // go / defer of the handler
+										}
+										return
+									}
+									for _, ca := range ci.Common().Args {
+										if isParam(ca) {
+											clean = false // handed on: where it runs is not known
+										}
+									}
+								})
+							}
+							if !found || !clean {
+								sites = append(sites, call) // not decided: judged at the (unguarded) hand-over
+							}
+						}
+					}
 				}
 			})
 		} else {
@@ -1321,11 +1384,51 @@ func init() {
 				n++
 				type st struct{ ok, closed, nilStore bool }
 				bad := ""
+				// closesStore: every return of the function has closed the store or found the store field nil
+				var closesStore func(f *ssa.Function, depth int) bool
+				closesStore = func(f *ssa.Function, depth int) bool {
+					if f == nil || len(f.Blocks) == 0 || depth > 2 {
+						return false
+					}
+					good, nret := true, 0
+					an.Paths(an.PathSpec[st]{Fn: f, Init: st{},
+						Instr: func(s st, in ssa.Instruction) []st {
+							switch x := in.(type) {
+							case *ssa.Call:
+								if r.IsAPI(x, "Store", "Close") {
+									s.closed = true
+								}
+								if sc := x.Call.StaticCallee(); sc != nil && sc != f && core.FuncPkgPath(sc) == c.P.Module && closesStore(sc, depth+1) {
+									s.closed = true
+								}
+							case *ssa.Return:
+								nret++
+								if !s.closed && !s.nilStore {
+									good = false
+								}
+							}
+							return []st{s}
+						},
+						Edge: func(s st, from *ssa.BasicBlock, succ int) (st, bool) {
+							if ifi := an.BlockIf(from); ifi != nil {
+								if x, nilSucc, ok := an.NilTest(ifi); ok {
+									if _, p := accessPath(an.Strip(x)); len(p) > 0 && p[len(p)-1] == "store" && succ == nilSucc {
+										s.nilStore = true
+									}
+								}
+							}
+							return s, true
+						}})
+					return good && nret > 0
+				}
 				an.Paths(an.PathSpec[st]{Fn: fn, Init: st{},
 					Instr: func(s st, in ssa.Instruction) []st {
 						switch x := in.(type) {
 						case *ssa.Call:
 							if r.IsAPI(x, "Store", "Close") {
+								s.closed = true
+							}
+							if sc := x.Call.StaticCallee(); sc != nil && sc != fn && sc.Parent() == nil && core.FuncPkgPath(sc) == c.P.Module && closesStore(sc, 0) {
 								s.closed = true
 							}
 						case *ssa.Return:
@@ -1645,29 +1748,52 @@ func init() {
 								pi = i
 							}
 						}
-						sites := c.P.Callers(fn)
-						good := len(sites) > 0 && pi >= 0
-						for _, site := range sites {
-							cc := site.Common()
-							if cc.StaticCallee() != fn || pi >= len(cc.Args) {
-								good = false
-								break
+						// every caller passes a state whose Offset is the session's size; a caller that is itself a helper handing
+						// on its own parameter is followed to its callers
+						var goodAt func(h *ssa.Function, pi, depth int) bool
+						goodAt = func(h *ssa.Function, pi, depth int) bool {
+							sites := c.P.Callers(h)
+							if len(sites) == 0 || pi < 0 || depth > 3 {
+								return false
 							}
-							vals := structStores(an.Strip(cc.Args[pi]))["Offset"]
-							if len(vals) != 1 {
-								good = false
-								break
-							}
-							for _, v := range vals {
-								if z, isC := an.ConstInt(v); isC && z == 0 {
+							for _, site := range sites {
+								cc := site.Common()
+								// the pointer-receiver wrapper go/ssa synthesises for a value method is no caller unless something calls it
+								if site.Parent().Synthetic != "" && len(c.P.Callers(site.Parent())) == 0 {
 									continue
 								}
-								if sz, _ := an.CallOf(an.Origin(v)); sz != nil && r.IsAPI(sz, "BlobCreator", "Size") && !staleAt(site.Parent(), site, sz) {
+								if cc.StaticCallee() != h || pi >= len(cc.Args) {
+									return false
+								}
+								if q, isP := an.Origin(cc.Args[pi]).(*ssa.Parameter); isP && q.Parent() == site.Parent() {
+									qi := -1
+									for i, x := range site.Parent().Params {
+										if x == q {
+											qi = i
+										}
+									}
+									if !goodAt(site.Parent(), qi, depth+1) {
+										return false
+									}
 									continue
 								}
-								good = false
+								vals := structStores(an.Strip(cc.Args[pi]))["Offset"]
+								if len(vals) != 1 {
+									return false
+								}
+								for _, v := range vals {
+									if z, isC := an.ConstInt(v); isC && z == 0 {
+										continue
+									}
+									if sz, _ := an.CallOf(an.Origin(v)); sz != nil && r.IsAPI(sz, "BlobCreator", "Size") && !staleAt(site.Parent(), site, sz) {
+										continue
+									}
+									return false
+								}
 							}
+							return true
 						}
+						good := goodAt(fn, pi, 0)
 						c.Check(good, okey, call.Pos(), "the state token marshalled at %s (in a helper) carries, at every call site, Offset = the session's Size() (or 0 for a new session): %v — the next chunk is checked against that number", c.P.Pos(call.Pos()), good)
 						return
 					}
